@@ -455,6 +455,9 @@ def run_strace_case(ctx, case):
             bad.append(("recovery", "SIGKILL at %s #%d on the data file; documented recovery: %r" % (name, k, r2 if st2 == "ok" else (st2, r2))))
         else:
             ctx.count("recoveries_exact")
+        if any(" timeout " in (" %s " % m.replace("(", " ").replace("'", " ").replace(",", " ")) for _, m in bad):
+            ctx.inconclusive_reason("wall-clock watchdog fired in a forked step (loaded machine)")
+            bad = [b for b in bad if " timeout " not in (" %s " % b[1].replace("(", " ").replace("'", " ").replace(",", " "))]
         for o, msg in bad[:2]:
             ctx.violation(sub, msg, dict(sig, oracle=o, crash_op=name))
         ctx.observe(sub, key=("strace", case["idx"], name, k), info={"syscall": name, "ordinal": k, "files_left": sorted(state)[:6]})
@@ -493,6 +496,9 @@ def run_case(ctx, case):
             break
         crash.restore(root, pre)
         st, _ = crash.run_killed_at(root, lambda: _victim(case, root), k)
+        if st == "timeout":
+            ctx.inconclusive_reason("wall-clock watchdog fired in a forked step (loaded machine)")
+            continue
         if st != "killed":
             raise AssertionError("kill point %d of %d not reached (%r): event sequence is not deterministic" % (k, K, st))
         state = crash.snap(root)
@@ -553,6 +559,10 @@ def run_case(ctx, case):
                     bad.append(("recovery-after-second-kill", "killed before %s, then again during recovery before %s: recovery %r" % (
                         evname, ev2[k2], r4)))
                     break
+        # a wall-clock watchdog that fired in a forked step (a loaded machine) decides nothing: inconclusive, not a violation
+        if any(" timeout " in (" %s " % m.replace("(", " ").replace("'", " ").replace(",", " ")) for _, m in bad):
+            ctx.inconclusive_reason("wall-clock watchdog fired in a forked step (loaded machine)")
+            bad = [b for b in bad if " timeout " not in (" %s " % b[1].replace("(", " ").replace("'", " ").replace(",", " "))]
         for o, msg in bad[:2]:
             ctx.violation(sub, msg, dict(sig, oracle=o, crash_op=evname.split(":")[1].split("(")[0],
                                          crash_file=os.path.basename(evname.split("(")[1].split(")")[0].split(" ")[0].split("->")[0])[:14]))
